@@ -45,8 +45,11 @@ def fnv1(bs):
 
 
 def cache_key(ip4, tid):
+    """(shard index, key text) under which the cache files hold the template of exporter ip4 / id tid: the shard is
+    picked by the 32-bit FNV-1 of addr||id, the key inside the shard's map is the hex text of addr||id (K1 / F26)"""
     addr = bytes(10) + b"\xff\xff" + bytes(ip4)        # the dual-stack listener reports IPv4-mapped addresses
-    return fnv1(addr + struct.pack(">H", tid))
+    octets = addr + struct.pack(">H", tid)
+    return fnv1(octets) % 32, octets.hex()
 
 
 # a small set of fixed-length elements: (id, length)
@@ -347,8 +350,8 @@ def cycle(n, seed, binary, pattern=None):
             for m in must:
                 if m[0] != proto:
                     continue
-                k = cache_key([127, 0, 0, m[1]], m[2])
-                ent = (doc["Cache"][k % 32].get("Templates") or {}).get(str(k))
+                shard, k = cache_key([127, 0, 0, m[1]], m[2])
+                ent = (doc["Cache"][shard].get("Templates") or {}).get(k)
                 if ent is None:
                     return "exit=0 tpl-missing", "fail:lost template %s exporter 127.0.0.%d id %d announced >=300ms before the signal is not in %s" % (proto, m[1], m[2], fn), sample
                 got = [(f["ElementID"], f["Length"]) for f in (ent["Template"].get("ScopeFieldSpecifiers") or []) + (ent["Template"].get("FieldSpecifiers") or [])]
@@ -500,8 +503,8 @@ def stall_cycle(n, seed, binary, params=None):
                 doc = json.load(open(os.path.join(wdir, fn)))
             except Exception as e:
                 return "exit=0 cache-bad", "fail:cachefile %s is not a complete JSON document after the stop: %r" % (fn, e), sample
-            k = cache_key([127, 0, 0, ipl], tid)
-            ent = (doc["Cache"][k % 32].get("Templates") or {}).get(str(k)) if len(doc.get("Cache") or []) == 32 else None
+            shard, k = cache_key([127, 0, 0, ipl], tid)
+            ent = (doc["Cache"][shard].get("Templates") or {}).get(k) if len(doc.get("Cache") or []) == 32 else None
             if ent is None:
                 return "exit=0 tpl-missing", "fail:lost template %s exporter 127.0.0.%d id %d acknowledged before the signal is not in %s" % (proto, ipl, tid, fn), sample
             got = [(f["ElementID"], f["Length"]) for f in ent["Template"].get("FieldSpecifiers") or []]
